@@ -111,6 +111,8 @@ def run(case, ctx):
     if case["i"] % 10 == 9:
         L = int(rng.integers(300, 1200))  # realistic sizes (code paths gated on the size)
     B = int(rng.integers(1, L + 1)) if L <= 40 else int(rng.choice([16, 32, 64, 100, 128]))
+    if case["i"] % 12 == 5:
+        B = L + int(rng.integers(1, L + 2))  # a data set smaller than one batch: floor(L/B) = 0 batches, nothing repeated
     ndev = 2 if (B % 2 == 0 and rng.integers(0, 2)) else 1
     devices = [jax.devices()[0]] * ndev
     use_default_devices = ndev == 1 and bool(rng.integers(0, 2))
